@@ -64,8 +64,20 @@ func propagateMatchers(binOp *parser.BinaryExpr) {
 	}
 
 	finalMatchers := toSlice(union)
-	lhSelector.LabelMatchers = finalMatchers
-	rhSelector.LabelMatchers = finalMatchers
+	lhSelector.LabelMatchers = append(metricNameMatchers(lhSelector), finalMatchers...)
+	rhSelector.LabelMatchers = append(metricNameMatchers(rhSelector), finalMatchers...)
+}
+
+// metricNameMatchers returns the matchers on the metric name, which stay with
+// their own selector.
+func metricNameMatchers(selector *parser.VectorSelector) []*labels.Matcher {
+	var matchers []*labels.Matcher
+	for _, m := range selector.LabelMatchers {
+		if m.Name == labels.MetricName {
+			matchers = append(matchers, m)
+		}
+	}
+	return matchers
 }
 
 func toSlice(union map[string]*labels.Matcher) []*labels.Matcher {
